@@ -301,7 +301,7 @@ def script(rng, case, idx):
             observe('recipe.rp', res['rp'])
             for tf in ('all', 'one', 'two'):
                 for s, u in ((salt, 'mmol'), (salt, 'mg'), (water, 'mL'), (sulf, 'umol'), (lip, 'U')):
-                    for dests, dl in (('plates', 'plates'), ([b], 'rb'), ([a, b, pl, made, d2], 'all')):
+                    for dests, dl in (('plates', 'plates'), ([b], 'rb'), ([a, b, pl, made, d2], 'all'), ([a], 'ra_which_only_gives')):
                         try:
                             v = r.get_substance_used(s, tf, u, dests)
                         except Exception as e:   # noqa
